@@ -1360,6 +1360,15 @@ def check_C07(ctx):
     for _ in range(ctx.n(300, 5000)):
         streams.append(garbage_stream(ctx))
     streams += reject_runs(ctx)
+    # checksum-valid frames of every declared class/id (3-byte ids with the right and with an undefined type byte) carrying
+    # arbitrary short payloads, each followed by a frame that must still arrive: whatever the message layer makes of the
+    # payload, the bytes after it are not abandoned
+    tail = gen.frame(b"\x05", b"\x01", b"\x06\x01")
+    keys = list(UBX_MSGIDS)
+    for key in (keys if ctx.tier == "thorough" else rng.sample(keys, min(len(keys), 160))):
+        for tb in ([key[2:3], bytes([rng.choice([0x7e, 0xee, 0xff])])] if len(key) == 3 else [b""]):
+            p = tb + bytes(rng.getrandbits(8) for _ in range(rng.choice([0, 1, 2, 8, 33])))
+            streams.append(gen.frame(key[0:1], key[1:2], p) + tail)
     def variants(s):
         return [("file", rng.choice([0, 1]), rng.choice([7, 7, 7, 2, 5, 0]), rng.choice([1, 1, 0]), rng.choice([0, 3]), rng.choice([0, 1]), 1)]
     lines, meta = readp_lines(ctx, streams, variants)
